@@ -8,7 +8,7 @@ use rust_dsymbols::derived::minimal_image;
 use crate::corpus::{maps_onto, Corpus, Entry};
 use crate::dsx::Sym;
 use crate::prng::{hmix, SplitMix64};
-use crate::spec::{Expect, Op, Repr, Spec, Xf};
+use crate::spec::{Expect, Op, PreOp, Repr, Spec, Xf};
 
 #[derive(Clone, Copy, Debug, PartialEq, Eq)]
 pub enum Tier {
@@ -34,6 +34,8 @@ pub fn prop_code(prop: &str) -> u64 {
 }
 
 pub struct Planner {
+    /// literal texts from which explicit call histories (pre-ops) are drawn
+    pub pre_pool: Vec<String>,
     pub seed: u64,
     pub prop: String,
     pub tier: Tier,
@@ -89,7 +91,7 @@ impl Census {
 
 impl Planner {
     pub fn new(seed: u64, prop: &str, tier: Tier, hooks: bool) -> Planner {
-        Planner { seed, prop: prop.to_string(), tier, next_idx: 0, hooks }
+        Planner { pre_pool: vec![], seed, prop: prop.to_string(), tier, next_idx: 0, hooks }
     }
 
     fn rng_for(&self, idx: u64) -> SplitMix64 {
@@ -114,6 +116,7 @@ impl Planner {
                 cxf: vec![],
                 expect: Expect::Unknown,
                 hist: 0,
+                pre: vec![],
                 k0: 0,
                 k1: 0,
                 steer: vec![],
@@ -148,6 +151,17 @@ impl Planner {
             2 => 3,
             _ => 0,
         };
+        if interesting && !self.pre_pool.is_empty() && rng.chance(1, 5) {
+            // explicit call history: one or two earlier calls on other corpus
+            // symbols on the same run thread (thread-local or process-wide
+            // state left behind by a call must not change a later result)
+            let n = 1 + rng.below(2);
+            for _ in 0..n {
+                let base = self.pre_pool[rng.below(self.pre_pool.len())].clone();
+                let op = if self.prop == "C16" && rng.chance(1, 2) { Op::SimplifyPtc } else { Op::IsEuclidean };
+                spec.pre.push(PreOp { base, dual: rng.chance(1, 3), op });
+            }
+        }
         if interesting && self.hooks && rng.chance(1, 16) {
             // sampled runs also record every intermediate D-set of simplify
             spec.rec_states = true;
@@ -370,6 +384,39 @@ impl Planner {
                 specs.push(s);
             }
         }
+        // B9: ordered pairs of corpus literals (and duals): is_euclidean(b) right
+        // after is_euclidean(a) on the same thread must still say yes
+        {
+            let mut items: Vec<(String, bool)> = vec![];
+            for e in corpus.k0.iter() {
+                items.push((e.text.clone(), false));
+                items.push((e.text.clone(), true));
+            }
+            let mut n_pairs = 0;
+            for (ia, a) in items.iter().enumerate() {
+                for (ib, b) in items.iter().enumerate() {
+                    if ia == ib {
+                        continue;
+                    }
+                    // quick: a seeded quarter of the 1,892 ordered pairs
+                    if !thorough && hmix(&[self.seed, 0x9A12, ia as u64, ib as u64]) % 4 != 0 {
+                        continue;
+                    }
+                    let group = corpus.k0[ib / 2].id.clone();
+                    let (mut s, mut rng) = self.base_spec(&group, &b.0, Op::IsEuclidean);
+                    if b.1 {
+                        s.xf.push(Xf::Dual);
+                    }
+                    s.known_euclidean = true;
+                    s.k0 = rng.next_u64();
+                    s.k1 = rng.next_u64();
+                    s.pre.push(PreOp { base: a.0.clone(), dual: a.1, op: Op::IsEuclidean });
+                    specs.push(s);
+                    n_pairs += 1;
+                }
+            }
+            let _ = n_pairs;
+        }
         // B5: finite-group symbols (expected "no" by the invariant filter)
         for e in corpus.finite.iter() {
             for _ in 0..8 {
@@ -543,6 +590,58 @@ impl Planner {
                     s.deep = r == 0;
                     self.perturb(&mut s, &mut rng, true);
                     specs.push(s);
+                }
+            }
+        }
+        // B3e: one-cube manifolds (same cube, different face gluings: ops 0-2 and the
+        // chamber numbering are shared, only op 3 differs) as ordered pairs on one
+        // thread: simplify(y) right after simplify(x). The torus member is a
+        // verified cover of the cubic tiling, so its result must be the cube.
+        {
+            let mut family: Vec<(String, bool)> = vec![];
+            for a in 0..4 {
+                for b in 0..4 {
+                    for c in 0..4 {
+                        let m = crate::gen::cube_manifold([a, b, c]);
+                        if m.validate().is_ok() && m.is_connected() && crate::dsx::manifold_check(&m).is_ok() {
+                            let is_torus = [a, b, c] == [0, 0, 0];
+                            family.push((m.to_text(), is_torus));
+                        }
+                    }
+                }
+            }
+            for (ix, x) in family.iter().enumerate() {
+                for (iy, y) in family.iter().enumerate() {
+                    if ix == iy {
+                        continue;
+                    }
+                    if !thorough && !y.1 && !x.1 && hmix(&[self.seed, 0xC0BE, ix as u64, iy as u64]) % 4 != 0 {
+                        continue;
+                    }
+                    let (mut s, mut rng) = self.base_spec(&format!("Q{}/self", iy), &y.0, Op::SimplifySelf);
+                    s.expect = if y.1 { Expect::Torus } else { Expect::Unknown };
+                    s.known_euclidean = y.1;
+                    s.k0 = rng.next_u64();
+                    s.k1 = rng.next_u64();
+                    s.pre.push(PreOp { base: x.0.clone(), dual: false, op: Op::SimplifySelf });
+                    specs.push(s);
+                }
+            }
+            // lens spaces with the same p share ops 0-2 as well
+            for p in [5usize, 7, 8, 9, 11, 13] {
+                let qs: Vec<usize> = (1..=p / 2).filter(|&q| gcd(p, q) == 1).collect();
+                for &q1 in &qs {
+                    for &q2 in &qs {
+                        if q1 == q2 {
+                            continue;
+                        }
+                        let (mut s, mut rng) = self.base_spec(&format!("L{}.{}/self", p, q2), &crate::gen::lens_space(p, q2).to_text(), Op::SimplifySelf);
+                        s.expect = Expect::SameAsInput;
+                        s.k0 = rng.next_u64();
+                        s.k1 = rng.next_u64();
+                        s.pre.push(PreOp { base: crate::gen::lens_space(p, q1).to_text(), dual: false, op: Op::SimplifySelf });
+                        specs.push(s);
+                    }
                 }
             }
         }
